@@ -56,7 +56,15 @@ def main():
         okeys = sorted({tuple(p) for p, node in paths if p and len(p) <= 3 and not is_coll(node)})
         rnd.shuffle(ckeys)
         rnd.shuffle(okeys)
-        keys = ckeys[:(12 if quick else 60)] + okeys[:(3 if quick else 12)]
+
+        def odd(node):
+            # collections with nil elements, pointer elements or keys that need escaping come first
+            nd = node["to"] if node["k"] == "ptr" else node
+            j = json.dumps(nd)[:4000]
+            return '"k": "nil"' in j or '"k": "nilptr"' in j or "~" in j or "a/b" in j
+        first = sorted({tuple(p) for p, node in paths if p and len(p) <= 3 and is_coll(node) and odd(node)})
+        ckeys = first + [k for k in ckeys if k not in first]
+        keys = ckeys[:(26 if quick else 80)] + okeys[:(3 if quick else 12)]
         colls = []
         for key in keys:
             for op in ("any", "all"):
